@@ -72,6 +72,45 @@ fn dir_pass(prop: &'static str, seed: u64, cases: u64, c06: bool, c17: bool) -> 
     out
 }
 
+fn run_crash(prop: &'static str, tier: Tier) -> i32 {
+    use sdmmc_verif::engines::crash;
+    let seed = env_seed();
+    let cfg = crash::cfg_for(prop);
+    let known = runner::load_known();
+    let thorough = tier == Tier::Thorough;
+    let cases = env_cases(match prop {
+        "C09" => tier.pick(15_000, 500_000),
+        _ => tier.pick(20_000, 600_000),
+    });
+    let mut pre = Acc::default();
+    let corpus_fail = runner::replay_corpus::<Case>(prop, &mut pre, &|c, a| crash::run_case(&cfg, c, a, &known, false, thorough));
+    let mut out = if let Some(v) = corpus_fail {
+        Outcome { acc: Acc::default(), violation: Some(v), wall_s: 0.0 }
+    } else {
+        runner::run_parallel(prop, seed, cases, || fsx::strategy(&cfg), |c: &Case, a| crash::run_case(&cfg, c, a, &known, false, thorough))
+    };
+    out.acc.merge(pre);
+    let rule = if prop == "C09" {
+        "generated histories with flush/close followed by other activity; for every successful flush/close of a file, every prefix of the later block-write sequence (until the file itself is next written, truncated or deleted) is materialised and the file is read by the independent reader (all prefixes) and by a fresh mount (every 4th prefix; all in thorough). evaluations = histories + (snapshot, prefix) pairs; non-trivial pair = a later write in the window hits the FAT or a directory/data block; distinct by (geometry, path length, size class, distance)"
+    } else {
+        "generated mutating histories on volumes whose free clusters hold stale directory entries; the medium after EVERY prefix of the block-write sequence must mount (fresh VolumeManager) and pass the crash-mode checker (no entry/chain through free, bad or out-of-range clusters, no cross-link, no cycle, no stale contents exposed, no directory entry without cluster). evaluations = histories + prefixes; non-trivial prefix = strictly inside an operation that issues >= 2 writes; distinct by (geometry, op kind, position within op)"
+    };
+    let ev = EvidenceIn {
+        prop,
+        tier,
+        seed,
+        level: "fault_enumeration",
+        rule,
+        exhaustive: None,
+        assumptions: vec![
+            "block writes are atomic and reach the medium in issue order (as the property states)".into(),
+            "crash points are enumerated completely per generated history; histories are sampled".into(),
+        ],
+        extra: json!({}),
+    };
+    runner::finish("crash", &out, &ev)
+}
+
 fn run_c06(tier: Tier) -> i32 {
     let seed = env_seed();
     let mut out = dir_pass("C06", seed, env_cases(tier.pick(12_000, 500_000)), true, false);
@@ -176,6 +215,10 @@ fn replay(path: &str) -> i32 {
             let case: Case = serde_json::from_value(rf.case).expect("case does not parse");
             fsx::run_case(&fsx::cfg_for(prop), &case, &mut acc, &known, true)
         }
+        "crash" => {
+            let case: Case = serde_json::from_value(rf.case).expect("case does not parse");
+            sdmmc_verif::engines::crash::run_case(&sdmmc_verif::engines::crash::cfg_for(prop), &case, &mut acc, &known, true, true)
+        }
         "dirgen" => {
             let case: dirgen::DirCase = serde_json::from_value(rf.case).expect("case does not parse");
             dirgen::run_case(&case, &mut acc, prop == "C06", prop == "C17", true)
@@ -231,6 +274,8 @@ fn main() {
                 "C06" => run_c06(tier),
                 "C07" => run_fsx("C07", tier, "exploration"),
                 "C08" => run_fsx("C08", tier, "exploration"),
+                "C09" => run_crash("C09", tier),
+                "C10" => run_crash("C10", tier),
                 "C16" => run_fsx("C16", tier, "exploration"),
                 "C17" => run_c17(tier),
                 "C18" => pure::run_c18(tier, env_seed()),
